@@ -201,6 +201,13 @@ def skip_noninterference(prog, chk):
     (never assigned from a call result: flags, counters, cursors) whose value decides whether an error is reported must
     therefore be maintained identically whether or not the parser is skipping: none of its assignments may be reachable
     only through one outcome of a test of skip_depth."""
+    r7 = chk.rule("R7-skipping-directives-consumed", "no production hands CIF_TRAVERSE_SKIP_CURRENT / SKIP_SIBLINGS received from a "
+                  "handler up to its caller: they are acted upon where they are answered (A1 may-return analysis with handler "
+                  "calls as the only sources)", primary=False, floor=8)
+    from .. import eofsentinel
+    if eofsentinel.directive_rule(prog, r7) < 8:
+        raise Broken("fewer than 8 (production, directive) pairs analysed")
+
     r6 = chk.rule("R6-error-state-independent-of-skipping", "no bookkeeping variable that decides an error report is assigned only "
                   "under one outcome of a skip_depth test", floor=6)
     n_vars = 0
